@@ -114,10 +114,8 @@ def run_case(case, ctx):
     if flags and rk['kind'] != 'none':
         obs.cls('flags+range')
 
-    kw = dict(bounding_f_range=rng, integrate_path=opts['integrate_path'],
-              integrate_t_profile=opts['integrate_t_profile'], integrate_f_profile=opts['integrate_f_profile'],
-              doppler_smearing=smear, t_subsamples=opts['t_subsamples'], f_subsamples=opts['f_subsamples'],
-              smearing_subsamples=opts['smearing_subsamples'])
+    pos, kw = S.call_options(opts, rng)
+    obs.cls('call_style=' + opts.get('call_style', 'explicit'))
 
     # ---- negative facet: malformed component inputs must be rejected cleanly --------------
     neg = case['neg']
@@ -127,7 +125,8 @@ def run_case(case, ctx):
         tprof = S.stg_t(stg, ax, sg['t'])
         fprof = S.stg_f(stg, ax, sg['f'])
         bp = S.stg_bp(stg, ax, sg['bp'])
-        kw2 = dict(kw, bounding_f_range=None)
+        kwx = S.call_options(dict(opts, call_style='explicit'), rng)[1]
+        kw2 = dict(kwx, bounding_f_range=None)
         if neg == 'path_len':
             bad = np.full(ax.T + (3 if smear else 2), ax.f_of(0.5))
             core.expect_raises(obs, 'path_wrong_length', (ValueError,), fr.add_signal, bad, tprof, fprof, bp, **kw2)
@@ -152,7 +151,7 @@ def run_case(case, ctx):
     fprof = S.stg_f(stg, ax, sg['f'])
     bp = S.stg_bp(stg, ax, sg['bp'])
     tag = 'add_signal' + ('[smear]' if smear else '') + (f'[range={rk["kind"]}]' if rk['kind'] in ('below', 'above', 'reversed') else '')
-    ok, got = core.call(obs, tag, fr.add_signal, path, tprof, fprof, bp, **kw)
+    ok, got = core.call(obs, tag, fr.add_signal, path, tprof, fprof, bp, *pos, **kw)
     if not ok:
         return obs
     got = np.asarray(got, dtype=float)
@@ -192,7 +191,7 @@ def run_case(case, ctx):
         fr.ts = np.asarray(fr.ts) + case['reshift'] * ax.dt
         before2 = fr.data.copy()
         ok, got2 = core.call(obs, 'add_signal[second, moved ts]', fr.add_signal, S.stg_path(stg, ax, sg['path'], smear),
-                             S.stg_t(stg, ax, sg['t']), S.stg_f(stg, ax, sg['f']), S.stg_bp(stg, ax, sg['bp']), **kw)
+                             S.stg_t(stg, ax, sg['t']), S.stg_f(stg, ax, sg['f']), S.stg_bp(stg, ax, sg['bp']), *pos, **kw)
         if ok:
             exp2, tol2, excl2 = S.reference(stg, ax, sg, opts, ts_eval=np.asarray(fr.ts))
             bad2 = (np.abs(np.asarray(got2) - exp2) > tol2) & ~excl2
